@@ -1,0 +1,315 @@
+//! Verification hook (feature `isographlabs_isograph_verif` only): a thread-local event sink and
+//! a textual wire encoding of merged selection maps and of the values the printers consume.
+//!
+//! Wire: space separated tokens; every string is the lower-case hex of its UTF-8 bytes (`-` for
+//! the empty string); sequences are prefixed by their length.  Nothing here changes behaviour.
+use std::{cell::RefCell, collections::BTreeMap, fmt::Write};
+
+use isograph_lang_types::{
+    ArgumentKeyAndValue, ConstantValue, NonConstantValue, TypeAnnotationDeclaration, UnionVariant,
+    VariableDeclaration,
+};
+
+use crate::{
+    ConcreteTargetEntityName, MergedSelectionMap, MergedServerSelection, NormalizationKey,
+};
+
+thread_local! {
+    static SINK: RefCell<Option<Vec<(String, String)>>> = const { RefCell::new(None) };
+}
+
+/// Start recording on this thread (drops anything recorded before).
+pub fn verif_start() {
+    SINK.with(|s| *s.borrow_mut() = Some(vec![]));
+}
+
+/// Is a recording active on this thread?
+pub fn verif_active() -> bool {
+    SINK.with(|s| s.borrow().is_some())
+}
+
+/// Record one event (no-op unless `verif_start` was called on this thread).
+pub fn verif_note(tag: &str, value: String) {
+    SINK.with(|s| {
+        if let Some(v) = s.borrow_mut().as_mut() {
+            v.push((tag.to_string(), value));
+        }
+    });
+}
+
+/// Stop recording and return the events.
+pub fn verif_take() -> Vec<(String, String)> {
+    SINK.with(|s| s.borrow_mut().take().unwrap_or_default())
+}
+
+pub fn verif_hex(s: &str) -> String {
+    if s.is_empty() {
+        return "-".to_string();
+    }
+    let mut out = String::with_capacity(s.len() * 2);
+    for b in s.as_bytes() {
+        let _ = write!(out, "{b:02x}");
+    }
+    out
+}
+
+pub fn verif_wire_value(out: &mut String, value: &NonConstantValue) {
+    match value {
+        NonConstantValue::Variable(v) => {
+            let _ = write!(out, " V {}", verif_hex(&v.to_string()));
+        }
+        NonConstantValue::Integer(i) => {
+            let _ = write!(out, " I {i}");
+        }
+        NonConstantValue::Boolean(b) => {
+            let _ = write!(out, " B {}", u8::from(*b));
+        }
+        NonConstantValue::String(s) => {
+            let _ = write!(out, " S {}", verif_hex(&s.to_string()));
+        }
+        NonConstantValue::Float(f) => {
+            let _ = write!(out, " F {}", verif_hex(&f.as_float().to_string()));
+        }
+        NonConstantValue::Null => out.push_str(" N"),
+        NonConstantValue::Enum(e) => {
+            let _ = write!(out, " E {}", verif_hex(&e.to_string()));
+        }
+        NonConstantValue::List(items) => {
+            let _ = write!(out, " L {}", items.len());
+            for item in items {
+                verif_wire_value(out, &item.item);
+            }
+        }
+        NonConstantValue::Object(pairs) => {
+            let _ = write!(out, " O {}", pairs.len());
+            for pair in pairs {
+                let _ = write!(out, " {}", verif_hex(&pair.name.item.to_string()));
+                verif_wire_value(out, &pair.value.item);
+            }
+        }
+    }
+}
+
+pub fn verif_wire_constant(out: &mut String, value: &ConstantValue) {
+    match value {
+        ConstantValue::Integer(i) => {
+            let _ = write!(out, " I {i}");
+        }
+        ConstantValue::Boolean(b) => {
+            let _ = write!(out, " B {}", u8::from(*b));
+        }
+        ConstantValue::String(s) => {
+            let _ = write!(out, " S {}", verif_hex(&s.to_string()));
+        }
+        ConstantValue::Float(f) => {
+            let _ = write!(out, " F {}", verif_hex(&f.as_float().to_string()));
+        }
+        ConstantValue::Null => out.push_str(" N"),
+        ConstantValue::Enum(e) => {
+            let _ = write!(out, " E {}", verif_hex(&e.to_string()));
+        }
+        ConstantValue::List(items) => {
+            let _ = write!(out, " L {}", items.len());
+            for item in items {
+                verif_wire_constant(out, &item.item);
+            }
+        }
+        ConstantValue::Object(pairs) => {
+            let _ = write!(out, " O {}", pairs.len());
+            for pair in pairs {
+                let _ = write!(out, " {}", verif_hex(&pair.name.item.to_string()));
+                verif_wire_constant(out, &pair.value.item);
+            }
+        }
+    }
+}
+
+pub fn verif_wire_arguments(out: &mut String, arguments: &[ArgumentKeyAndValue]) {
+    let _ = write!(out, " {}", arguments.len());
+    for argument in arguments {
+        let _ = write!(out, " {}", verif_hex(&argument.key.to_string()));
+        verif_wire_value(out, &argument.value);
+    }
+}
+
+pub fn verif_wire_type(out: &mut String, type_: &TypeAnnotationDeclaration) {
+    match type_ {
+        TypeAnnotationDeclaration::Scalar(name) => {
+            let _ = write!(out, " s {}", verif_hex(&name.to_string()));
+        }
+        TypeAnnotationDeclaration::Union(union) => {
+            let _ = write!(out, " u {} {}", u8::from(union.nullable), union.variants.len());
+            for variant in union.variants.iter() {
+                match variant {
+                    UnionVariant::Scalar(name) => {
+                        let _ = write!(out, " s {}", verif_hex(&name.to_string()));
+                    }
+                    UnionVariant::Plural(inner) => {
+                        out.push_str(" p");
+                        verif_wire_type(out, &inner.item);
+                    }
+                }
+            }
+        }
+        TypeAnnotationDeclaration::Plural(inner) => {
+            out.push_str(" p");
+            verif_wire_type(out, &inner.item);
+        }
+    }
+}
+
+pub fn verif_wire_variable_declaration(out: &mut String, variable: &VariableDeclaration) {
+    let _ = write!(out, " {}", verif_hex(&variable.name.item.to_string()));
+    verif_wire_type(out, &variable.type_.item);
+    match &variable.default_value {
+        Some(default_value) => {
+            out.push_str(" d");
+            verif_wire_constant(out, &default_value.item);
+        }
+        None => out.push_str(" n"),
+    }
+}
+
+pub fn verif_wire_variable_declarations<'a>(
+    out: &mut String,
+    variables: impl Iterator<Item = &'a VariableDeclaration>,
+) {
+    let variables: Vec<_> = variables.collect();
+    let _ = write!(out, " {}", variables.len());
+    for variable in variables {
+        verif_wire_variable_declaration(out, variable);
+    }
+}
+
+/// Every normalization key occurring anywhere in the maps, ranked by the keys' `Ord` (the order
+/// every `BTreeMap<NormalizationKey, _>` built from these keys iterates in).
+pub fn verif_key_ranks(maps: &[&MergedSelectionMap]) -> BTreeMap<NormalizationKey, usize> {
+    fn collect(map: &MergedSelectionMap, keys: &mut BTreeMap<NormalizationKey, usize>) {
+        for (key, value) in map.iter() {
+            keys.insert(key.clone(), 0);
+            match value {
+                MergedServerSelection::ScalarField(_) => {}
+                MergedServerSelection::LinkedField(l)
+                | MergedServerSelection::ClientObjectSelectable(l) => {
+                    collect(&l.selection_map, keys)
+                }
+                MergedServerSelection::InlineFragment(f) => collect(&f.selection_map, keys),
+            }
+        }
+    }
+    let mut keys = BTreeMap::new();
+    for map in maps {
+        collect(map, &mut keys);
+    }
+    for (rank, (_, slot)) in keys.iter_mut().enumerate() {
+        *slot = rank;
+    }
+    keys
+}
+
+fn wire_key(out: &mut String, key: &NormalizationKey, ranks: &BTreeMap<NormalizationKey, usize>) {
+    let _ = write!(out, " {}", ranks.get(key).copied().unwrap_or(usize::MAX));
+    match key {
+        NormalizationKey::Discriminator => out.push_str(" D"),
+        NormalizationKey::Id => out.push_str(" I"),
+        NormalizationKey::ServerField(n) => {
+            let _ = write!(out, " F {}", verif_hex(&n.name.to_string()));
+            verif_wire_arguments(out, &n.arguments);
+        }
+        NormalizationKey::ClientPointer(n) => {
+            let _ = write!(out, " P {}", verif_hex(&n.name.to_string()));
+            verif_wire_arguments(out, &n.arguments);
+        }
+        NormalizationKey::InlineFragment(t) => {
+            let _ = write!(out, " T {}", verif_hex(&t.to_string()));
+        }
+    }
+}
+
+fn wire_concrete(out: &mut String, concrete: &ConcreteTargetEntityName) {
+    match concrete {
+        ConcreteTargetEntityName::Concrete(name) => {
+            let _ = write!(out, " C {}", verif_hex(&name.to_string()));
+        }
+        ConcreteTargetEntityName::Abstract => out.push_str(" A"),
+    }
+}
+
+/// The merged selection map, entry by entry in the map's own iteration order, recursively.
+pub fn verif_wire_map(
+    out: &mut String,
+    map: &MergedSelectionMap,
+    ranks: &BTreeMap<NormalizationKey, usize>,
+) {
+    let _ = write!(out, " {}", map.len());
+    for (key, value) in map.iter() {
+        wire_key(out, key, ranks);
+        match value {
+            MergedServerSelection::ScalarField(s) => {
+                let _ = write!(
+                    out,
+                    " s {} {}",
+                    u8::from(s.is_fallible),
+                    verif_hex(&s.name.to_string())
+                );
+                verif_wire_arguments(out, &s.arguments);
+            }
+            MergedServerSelection::LinkedField(l) => {
+                let _ = write!(
+                    out,
+                    " l {} {}",
+                    u8::from(l.is_fallible),
+                    verif_hex(&l.name.to_string())
+                );
+                verif_wire_arguments(out, &l.arguments);
+                wire_concrete(out, &l.concrete_target_entity_name);
+                verif_wire_map(out, &l.selection_map, ranks);
+            }
+            MergedServerSelection::ClientObjectSelectable(l) => {
+                let _ = write!(
+                    out,
+                    " c {} {}",
+                    u8::from(l.is_fallible),
+                    verif_hex(&l.name.to_string())
+                );
+                verif_wire_arguments(out, &l.arguments);
+                wire_concrete(out, &l.concrete_target_entity_name);
+                verif_wire_map(out, &l.selection_map, ranks);
+            }
+            MergedServerSelection::InlineFragment(f) => {
+                let _ = write!(out, " f {}", verif_hex(&f.type_to_refine_to.to_string()));
+                verif_wire_map(out, &f.selection_map, ranks);
+            }
+        }
+    }
+}
+
+/// Names of all scalar/linked fields and all inline-fragment types occurring in the map.
+pub fn verif_collect_names(
+    map: &MergedSelectionMap,
+    fields: &mut Vec<common_lang_types::SelectableName>,
+    types: &mut Vec<common_lang_types::EntityName>,
+) {
+    for value in map.values() {
+        match value {
+            MergedServerSelection::ScalarField(s) => {
+                if !fields.contains(&s.name) {
+                    fields.push(s.name);
+                }
+            }
+            MergedServerSelection::LinkedField(l)
+            | MergedServerSelection::ClientObjectSelectable(l) => {
+                if !fields.contains(&l.name) {
+                    fields.push(l.name);
+                }
+                verif_collect_names(&l.selection_map, fields, types);
+            }
+            MergedServerSelection::InlineFragment(f) => {
+                if !types.contains(&f.type_to_refine_to) {
+                    types.push(f.type_to_refine_to);
+                }
+                verif_collect_names(&f.selection_map, fields, types);
+            }
+        }
+    }
+}
